@@ -135,7 +135,7 @@ def search_op(w, tag, kinds=('find', 'facet', 'fe')):
     as_list = expr is not None and ch.flip(tag + '.listform', 1, 3)
     runarg = (list(items) if as_list else expr) if expr is not None else None
     text = f'runids={runarg!r} ' + ' '.join(f'{d}={v}' for d, v in cons.items())
-    esig = '+'.join(sorted(ekinds)) or 'no_runids'
+    esig = 'runids_with_range' if ekinds & {'range', 'open_end', 'open_start'} else ('runids_list' if ekinds else 'no_runids')
 
     if kind == 'facet':
         free = [d for d in DIMS if d not in cons]
@@ -154,7 +154,7 @@ def search_op(w, tag, kinds=('find', 'facet', 'fe')):
         if exp:
             w.probes['facet_nonempty'] += 1
         if list(got) != exp:
-            w.violate('C17', 'facet_wrong', f'{d}:{esig}', f'facet {d} with {text}: got {list(got)}, brute force over the primary table {exp}', fatal=False)
+            w.violate('C17', 'facet_wrong', esig, f'facet {d} with {text}: got {list(got)}, brute force over the primary table {exp}', fatal=False)
         w.searches_checked += 1
         return
 
